@@ -127,6 +127,12 @@ def gen_case(r, dlcis, finding = False):
 				queued += 1
 		elif k < 0.8:
 			ops.append(("P", r.choice((1, 2, 3, 7, 50, 300, 5000))))
+		elif k < 0.84 and not finding:
+			# a well-formed frame from outside for an address nobody can have registered (the handler table
+			# has 129 entries): dropped without a trace
+			ops.append(("DRAIN",))
+			d = r.choice((DLCI_MAX, DLCI_MAX, DLCI_MAX + 1, 200, 254, 255))
+			ops.append(("G", bytes((FLAG,)) + escape(bytes((d, 0x03)) + rand_payload(r, 60)) + bytes((FLAG,)), "foreign"))
 		elif k < 0.9 and not finding:
 			ops.append(("DRAIN",))
 			n = r.randint(1, 60)
@@ -318,7 +324,12 @@ def check_case(ctx, ops, lines, registered):
 		elif op[0] == "G":
 			if not ck.idle():
 				raise common.HarnessError("generator injected octets inside a frame")
-			if op[2] == "noise":
+			if op[2] == "foreign":
+				ctx.count("frames_for_addresses_beyond_the_handler_table")
+				if dl:
+					return (k, "a frame for an address without handler caused a delivery", {"frame": op[1][:40].hex(),
+						"got": [dl[0][0], dl[0][1].hex()]}), ck
+			elif op[2] == "noise":
 				ctx.count("noise_runs")
 				if dl:
 					return (k, "flag-free noise between frames caused a delivery", {"noise": op[1].hex(),
@@ -366,6 +377,7 @@ def judge(ctx, binary, cases, registered, sub):
 # ---- interrupt context -------------------------------------------------------------------------
 
 IRQ_DLCIS = [1, 2, 3, 5, 9, 10, 31, 64, 127]
+FIQ_DLCIS = [4, 6]          # used by the simulated FIQ only, so that FIFO per DLCI stays decidable
 PREEMPTED_AT = set()
 
 
@@ -426,13 +438,27 @@ def irq_scenario(r, small = False):
 	for _ in range(nin):
 		d = ECHO if r.random() < 0.35 else r.choice(few)
 		inbound.append((d, irq_payload(r) if d != ECHO else r.randbytes(r.randint(0, 30))))
-	if inbound:
-		ops.append(("F", b"".join(frame(d, p) for d, p in inbound)))
+	stream = b"".join(frame(d, p) for d, p in inbound)
+	if not small and r.random() < 0.15:
+		# more frames than the firmware has buffers (32), none of which may keep one: frames nobody has a handler for,
+		# or over-long frames (each followed by a frame that may be lost with it)
+		if r.random() < 0.5:
+			stream += b"".join(frame(r.choice((77, 129, 200)), r.randbytes(r.randint(0, 8))) for _ in range(40))
+		else:
+			for _ in range(40):
+				body = bytes(b for b in r.randbytes(400) if b != FLAG)[:r.choice((256, 257, 300))]
+				stream += frame(r.choice(few), body) + frame(200, b"x")
+	if stream:
+		ops.append(("F", stream))
 	for _ in range(nmsg):
 		ops.append(("S", r.choice(few), irq_payload(r)))
 		if not small and r.random() < 0.25:
 			ops.append(("X", r.choice((1, 2, 5, 64))) if r.random() < 0.6 else ("Y", r.choice((1, 3, 64))))
 	ops.append(("Z",))
+	if not small and r.random() < 0.5:
+		# layer 1's frame interrupt (FIQ) sends messages of its own while the UART interrupt handler runs
+		fiq = [(r.choice((1, 1, 2, 3, 5, 9, 20, 60)), r.choice(FIQ_DLCIS), r.randbytes(r.randint(0, 12))) for _ in range(r.randint(1, 10))]
+		ops.insert(0, ("Q", fiq))
 	return ops, inbound
 
 
@@ -443,6 +469,8 @@ def irq_render(idx, plan, ops):
 			out.append("S %d %s" % (op[1], hexs(op[2])))
 		elif op[0] == "F":
 			out.append("F %s" % hexs(op[1]))
+		elif op[0] == "Q":
+			out.append("Q " + " ".join("%d:%d:%s" % (g, d, hexs(p)) for g, d, p in op[1]))
 		elif op[0] in "XY":
 			out.append("%s %d" % op)
 		else:
@@ -456,6 +484,7 @@ def irq_judge(ctx, plan, ops, inbound, lines, script):
 	wire = None
 	dl = []
 	stats = None
+	fiq_fired = []
 	for l in lines:
 		if l.startswith("D "):
 			p = l.split(" ")
@@ -464,6 +493,9 @@ def irq_judge(ctx, plan, ops, inbound, lines, script):
 			wire = unhex(l[2:])
 		elif l.startswith("e "):
 			stats = [int(x) for x in l.split()[1:]]
+		elif l.startswith("q "):
+			fiq_fired.append(int(l.split()[1]))
+			ctx.count("fiq_messages_sent_inside_the_uart_interrupt_handler")
 		elif l.startswith("i "):
 			p = l.split()
 			ctx.count("interrupts_inside_main_context_code")
@@ -490,6 +522,9 @@ def irq_judge(ctx, plan, ops, inbound, lines, script):
 	for op in ops:
 		if op[0] == "S":
 			sent.setdefault(op[1], []).append(op[2])
+		elif op[0] == "Q":
+			for k in fiq_fired:
+				sent.setdefault(op[1][k][1], []).append(op[1][k][2])
 	for d, p in inbound:
 		if d == ECHO:
 			sent.setdefault(ECHO, []).append(p)
@@ -779,6 +814,7 @@ def run(ctx):
 	finally:
 		bd.remove()
 	ctx.require("interrupt_cases_ok", 300)
+	ctx.require("fiq_messages_sent_inside_the_uart_interrupt_handler", 100)
 	ctx.require("interrupts_inside_main_context_code", 1000)
 	ctx.require("callbacks_masked", 1000)
 	ctx.require("cases", 100)
@@ -786,6 +822,7 @@ def run(ctx):
 	ctx.require("deliveries_ok", 1000)
 	ctx.require("noise_runs", 20)
 	ctx.require("overlong_frames", 20)
+	ctx.require("frames_for_addresses_beyond_the_handler_table", 20)
 	ctx.require("escapes_of_7e", 50)
 	ctx.require("escapes_of_7d", 50)
 	ctx.require("escapes_of_00", 50)
@@ -818,7 +855,7 @@ def replay(ctx, data):
 				ops.append(("P", int(p[1])) if int(p[1]) != 1000000 else ("DRAIN",))
 			elif p[0] == "G":
 				b = unhex(p[1])
-				ops.append(("G", b, "overlong" if FLAG in b else "noise"))
+				ops.append(("G", b, ("foreign" if len(b) < 200 else "overlong") if FLAG in b else "noise"))
 		judge(ctx, binary, [ops], reg, data["sub"])
 		ctx.seen(1)
 	finally:
